@@ -8,7 +8,7 @@ EXTENDS Core
 
 CONSTANTS Configs,        \* set of daemon configurations (cfg records)
           Requests,       \* set of request records the environment may send
-          MaxReq, MaxDie, MaxExt, MaxFork, MaxSig,   \* budgets of environment actions
+          MaxReq, MaxDie, MaxExt, MaxFork, MaxSig, MaxSock,   \* budgets of environment actions
           MaxNow,         \* time horizon (ticks)
           MaxPid,         \* bound on the number of processes ever created
           DieStatuses,    \* wait statuses of spontaneous deaths
@@ -27,11 +27,12 @@ InitState(cfg, faults) ==
   [cfg |-> cfg, now |-> 0, k |-> <<>>,
    ws |-> [i \in 1..Len(cfg.ws) |->
             [st |-> "stopped", rel |-> FALSE, np |-> cfg.ws[i].np, pr |-> <<>>, sing |-> cfg.ws[i].sing, resp |-> cfg.ws[i].resp,
-             od |-> FALSE, G |-> cfg.ws[i].G, W |-> cfg.ws[i].W, ssig |-> cfg.ws[i].ssig, sch |-> cfg.ws[i].sch,
+             od |-> ("od" \in DOMAIN cfg.ws[i] /\ cfg.ws[i].od), G |-> cfg.ws[i].G, W |-> cfg.ws[i].W, ssig |-> cfg.ws[i].ssig, sch |-> cfg.ws[i].sch,
              hup |-> cfg.ws[i].hup]],
    wl |-> [i \in 1..Len(cfg.ws) |-> i], wn |-> <<>>,
    fr |-> [f \in FrameIds |-> NoFrame], cur |-> <<>>, rq |-> <<>>, tm |-> {}, pnext |-> -1, pdue |-> 0,
    slot |-> "", stopping |-> FALSE, restarting |-> FALSE, exited |-> FALSE, creq |-> QuitReq,
+   sockev |-> FALSE, sockready |-> FALSE,
    faults |-> faults, blocked |-> 0, out |-> NoLine, lastobs |-> <<>>, cbpend |-> FALSE, pjit |-> FALSE, nreq |-> 0,
    booted |-> FALSE]
 
@@ -59,7 +60,8 @@ MCfg(cfg) == [fm |-> TRUE, file |-> [i \in 1..Len(cfg.ws) |-> FileMs(cfg.ws[i])]
                         [n |-> cfg.ws[i].ln, np |-> cfg.ws[i].np, G |-> cfg.ws[i].G * 100, W |-> cfg.ws[i].W * 100,
                          sing |-> cfg.ws[i].sing, resp |-> cfg.ws[i].resp, auto |-> cfg.ws[i].auto,
                          prio |-> cfg.ws[i].prio, ssig |-> cfg.ws[i].ssig, sch |-> cfg.ws[i].sch, mage |-> 0,
-                         hup |-> cfg.ws[i].hup, od |-> FALSE, hooks |-> cfg.ws[i].hooks]]]
+                         hup |-> cfg.ws[i].hup, od |-> ("od" \in DOMAIN cfg.ws[i] /\ cfg.ws[i].od),
+                         hooks |-> cfg.ws[i].hooks]]]
 
 EnvLineKinds == {"tick", "req", "dsig", "boot", "probe", "end", "cb", "init"}
 MLine(before, after) ==
@@ -89,7 +91,7 @@ ProbeOf(st) ==
 Init == /\ \E cfg \in Configs, fs \in FaultSeqs : s = WithObs(InitState(cfg, fs))
         /\ g = [M!GhostInit EXCEPT !.cfg = MCfg(s.cfg)]
         /\ bad = {}
-        /\ n = [die |-> 0, ext |-> 0, fork |-> 0, sig |-> 0]
+        /\ n = [die |-> 0, ext |-> 0, fork |-> 0, sig |-> 0, sock |-> 0]
 
 \* ghost / verdict update for a step s -> t
 Observe(t) ==
@@ -149,6 +151,9 @@ Next ==
         \/ /\ n.fork < MaxFork /\ s.cur = <<>> /\ NP(s) < MaxPid
            /\ \E p \in 1..NP(s), ob \in ObeyChoices : CanDie(p) /\ s.k[p].par = 0 /\ Step(Fork(s, p, ob))
            /\ n' = [n EXCEPT !.fork = @ + 1]
+        \/ /\ n.sock < MaxSock /\ s.cur = <<>> /\ s.rq = <<>> /\ s.booted /\ ~s.exited
+           /\ Step(SockReady(s, ~s.sockready))           \* a connection arrives on a managed socket / is accepted
+           /\ n' = [n EXCEPT !.sock = @ + 1]
         \/ /\ n.sig < MaxSig /\ s.cur = <<>> /\ s.booted /\ ~s.exited
            /\ Step(DaemonSignal(s, 15))
            /\ n' = [n EXCEPT !.sig = @ + 1]
